@@ -250,6 +250,9 @@ pub fn run_mem_family(ctx: &Ctx, fam: &MemFamily) -> Stats {
             if c.src_len() > 64 {
                 st.class("random-mem-case-source-longer-than-64");
             }
+            if c.src_len() >= 512 {
+                st.class("random-mem-case-source-of-512-units-or-more");
+            }
             if nontrivial(c) {
                 st.nontrivial_hash(c.hash());
             }
